@@ -23,6 +23,8 @@ package main
 //   extent  XML scalar elements with every kind of content at every depth: structure extents (hostile_extent.go).
 //   repeat  JSON members / XML attributes that duplicate tag, type, value exactly or up to letter case, every
 //           document decoded many times: same bytes, same result (hostile_extent.go).
+//   conc    8-16 goroutines decoding at the same time, in a child process: valid, unknown-name and malformed documents
+//           of the three encodings; the process survives and every outcome equals the sequential one (hostile_conc.go).
 
 import (
 	"bufio"
@@ -1404,6 +1406,11 @@ func hostileChildMain() {
 			out.Flush()
 			continue
 		}
+		if a := concChild(sc.Text()); a != nil {
+			fmt.Fprintln(out, *a)
+			out.Flush()
+			continue
+		}
 		d, ok := parseDeepSpec(sc.Text())
 		if !ok {
 			fmt.Fprintln(out, "bad-spec")
@@ -1429,8 +1436,12 @@ func startDeepChild() (*deepChild, error) {
 	if err != nil {
 		return nil, err
 	}
+	return startDeepChildOf(bin, nil)
+}
+
+func startDeepChildOf(bin string, extraEnv []string) (*deepChild, error) {
 	cmd := exec.Command(bin)
-	cmd.Env = append(os.Environ(), hostileChildEnv+"=deep")
+	cmd.Env = append(append(os.Environ(), hostileChildEnv+"=deep"), extraEnv...)
 	in, err := cmd.StdinPipe()
 	if err != nil {
 		return nil, err
@@ -1893,8 +1904,13 @@ func runHostile(ctx *Ctx) {
 		var a32 []arch32Case
 		var deep []deepSpec
 		var loops []loopCase
+		var concs []concSpec
 		for _, l := range ctx.Replay {
 			switch {
+			case strings.HasPrefix(l, "#conc "):
+				if c, ok := parseConcSpec(strings.TrimPrefix(l, "#")); ok {
+					concs = append(concs, c)
+				}
 			case strings.HasPrefix(l, "#http "):
 				if sp, ok := parseHTTPSpec(l); ok {
 					httpCase(ctx, sp, "replay")
@@ -1940,6 +1956,9 @@ func runHostile(ctx *Ctx) {
 		if len(a32) > 0 {
 			runArch32(ctx, a32)
 		}
+		if len(concs) > 0 {
+			runConc(ctx, concs)
+		}
 		return
 	}
 	phase := func(name string, f func()) {
@@ -1959,6 +1978,7 @@ func runHostile(ctx *Ctx) {
 	// the two phases of hostile_extent.go come last: they draw from ctx.R and leave the streams of the others alone
 	phase("extent", func() { runExtent(ctx) })
 	phase("repeat", func() { runRepeat(ctx) })
+	phase("conc", func() { runConc(ctx, concSpecs(ctx)) })
 }
 
 var _ = hex.EncodeToString
